@@ -48,7 +48,7 @@ VARIABLES form,      \* sentential form: tuple of strings; nonterminals are "<Do
           steps
 genVars == <<form, steps>>
 
-NonTerminals == {"<Doc>", "<Node>", "<Expr>", "<Atom>", "<Chain>", "<Arg>", "<Args>", "<Body>"}
+NonTerminals == {"<Doc>", "<Node>", "<Expr>", "<Atom>", "<Chain>", "<Arg>", "<Args>", "<Body>", "<Name>"}
 IsNT(s) == s \in NonTerminals
 
 Texts == {"x", " ", "\n", "<b>", "{", "}", "%", "\t", "UTF8", "'", "\"", "BYTE01", "BADUTF8"}
@@ -65,6 +65,16 @@ BuiltinShapes ==
   { <<"{% if ", "<Expr>", " %}", "<Body>", "{% elif ", "<Expr>", " %}", "<Body>", "{% else %}", "<Body>", "{% endif %}">>,
     <<"{% for i in ", "<Expr>", " %}", "<Body>", "{{ forloop.Counter }}{{ forloop.Parentloop.Last }}{% empty %}", "<Body>", "{% endfor %}">>,
     <<"{% for k, v in ", "<Expr>", " reversed sorted %}", "<Body>", "{% endfor %}">>,
+    \* names a template binds itself, including the names the engine binds (forloop, block) and names bound twice
+    <<"{% for ", "<Name>", " in ", "<Expr>", " %}", "<Body>", "{{ ", "<Name>", " }}{% for ", "<Name>", ", ", "<Name>", " in ", "<Expr>", " %}", "<Body>", "{% endfor %}{% endfor %}">>,
+    <<"{% with ", "<Name>", "=", "<Expr>", " %}", "<Body>", "{% endwith %}">>,
+    <<"{% set ", "<Name>", " = ", "<Expr>", " %}", "<Body>">>,
+    <<"{% macro ", "<Name>", "(", "<Name>", ", ", "<Name>", "=", "<Expr>", ") %}", "<Body>", "{% endmacro %}{{ ", "<Name>", "(", "<Args>", ") }}">>,
+    <<"{% for i in ", "<Expr>", " %}{% cycle ", "<Name>", " ", "<Expr>", " as ", "<Name>", " %}{% cycle ", "<Name>", " %}{{ ", "<Name>", " }}{% endfor %}">>,
+    <<"{% for i in ", "<Expr>", " %}{% cycle ", "<Name>", " as ", "<Name>", " silent %}{% cycle ", "<Name>", " %}", "<Body>", "{% endfor %}">>,
+    <<"{% widthratio ", "<Expr>", " ", "<Expr>", " ", "<Expr>", " as ", "<Name>", " %}", "<Body>">>,
+    <<"{% import \"/lib\" lm as ", "<Name>", " %}", "<Body>">>,
+    <<"{% block ", "<Name>", " %}", "<Body>", "{% endblock %}">>,
     <<"{% with a=", "<Expr>", " b=", "<Expr>", " %}", "<Body>", "{% endwith %}">>,
     <<"{% with ", "<Expr>", " as a %}", "<Body>", "{% endwith %}">>,
     <<"{% set a = ", "<Expr>", " %}">>,
@@ -103,10 +113,11 @@ Prods(nt) ==
                         \cup { <<n, ".", m>> : n \in CtxNames, m \in {"F", "h", "k", "0", "9", "M0", "M1", "nope", "Counter", "Super", "1", "2"} }
     [] nt = "<Chain>" -> { <<f>> : f \in RegFilters } \cup { <<f, ":", "<Arg>">> : f \in RegFilters } \cup { <<f, "|", "<Chain>">> : f \in RegFilters }
     [] nt = "<Arg>" -> { <<a>> : a \in Ints \cup Strs \cup CtxNames \cup {"-1", "99999", "nope"} }
+    [] nt = "<Name>" -> { <<n>> : n \in {"a", "i", "forloop", "block", "m", "c", "x", "true", "in", "lm", "nope", "9", "a.b", "_"} } \cup { <<n>> : n \in CtxNames }
     [] nt = "<Args>" -> { <<>>, <<"<Expr>">>, <<"<Expr>", ", ", "<Expr>">>, <<"<Expr>", ", ", "<Expr>", ", ", "<Expr>">> }
 \* when the budget is used up every nonterminal takes its shortest terminal production
 MinProd(nt) == CASE nt = "<Doc>" -> <<>> [] nt = "<Body>" -> <<>> [] nt = "<Node>" -> <<"x">> [] nt = "<Expr>" -> <<"1">> [] nt = "<Atom>" -> <<"x">>
-                 [] nt = "<Chain>" -> <<"upper">> [] nt = "<Arg>" -> <<"1">> [] nt = "<Args>" -> <<>>
+                 [] nt = "<Chain>" -> <<"upper">> [] nt = "<Arg>" -> <<"1">> [] nt = "<Args>" -> <<>> [] nt = "<Name>" -> <<"forloop">>
 
 LeftmostNT == LET S == {i \in 1..Len(form) : IsNT(form[i])} IN IF S = {} THEN 0 ELSE CHOOSE m \in S : \A j \in S : m <= j
 Replace(i, p) == SubSeq(form, 1, i - 1) \o p \o SubSeq(form, i + 1, Len(form))
